@@ -1,31 +1,38 @@
 (* Properties/C02.v — Parallel PBF decoding preserves file order under every schedule.
    Statements only; proofs are in Pipeline/Proofs*.v over the LTS of Pipeline/Model.v. *)
 From Coq Require Import ZArith List Bool Arith Lia.
-From Verif Require Import Pipeline.Model Pipeline.Exec Pipeline.ProofsBasic Pipeline.ProofsOrder Pipeline.Witness.
+From Verif Require Import Pipeline.Model Pipeline.Exec Pipeline.ProofsBasic Pipeline.ProofsChain Pipeline.ProofsOrder Pipeline.Witness.
 Import ListNotations.
 
-(* NOT PROVED (full statement; the order invariant of DESIGN.md 4.1, see Pipeline/ProofsOrder.v for
-   the invariant's definition [dinv]/[up_ok] and notes/C02_ProofsOrder_unfinished.v.txt for the
-   unfinished inductive step):
+(* 1. THE ORDER THEOREM.  For every decoder count n >= 1, every input (blocks, undecodable blocks,
+   read errors), and every reachable state of the LTS — i.e. every interleaving of the reader, the
+   n workers, the serializer, the consumer and the API calls (Scan, Header, Err, Close, cancel from
+   the scanning goroutine, cancel from another goroutine at any moment), with every resolution of
+   every select, rendezvous channels for n > 10 included — what the consumer has been given is a
+   prefix of the file's elements in file order: nothing lost, duplicated, swapped between blocks.
+   Hypotheses: the serializer re-checks the context after a receive and Next takes the error from
+   the context (the code as it is now; see C02_overtake_refuted for the original code). *)
+Theorem C02_delivered_is_prefix : forall c s,
+  wf_cfg c = true -> c_recheck c = true -> c_nextctx c = true -> reach c s ->
+  exists t, delivered s ++ t = expected (c_inp c).
+Proof. exact delivered_is_prefix_all. Qed.
+Print Assumptions C02_delivered_is_prefix.
 
-   Theorem C02_delivered_is_prefix : forall c s, wf_cfg c = true -> current c = true -> reach c s ->
-     exists t, delivered s ++ t = expected (c_inp c).
-   Theorem C02_no_deadlock : forall c s, wf_cfg c = true -> current c = true -> reach c s ->
-     c_pc s = CNext -> exists l s' o, step c l s = Some (s', o).
-   Theorem C02_completes : forall c s, wf_cfg c = true -> current c = true -> reach c s ->
-     s_err s = eEOF -> delivered s = expected (c_inp c) /\ final_err (c_inp c) = eEOF.
-
-   What is proved about order is the specification-side half and the per-case correspondence:
-   every harness run is checked in Coq against [expected] (judgement 2) and against the model's
-   run (judgement 1). *)
+(* the same in consumer-visible terms: the objects returned by the successful Scans of ANY run
+   (any schedule, as a list of labels; disabled labels are skipped) are a prefix of the elements *)
+Theorem C02_scans_are_prefix : forall c sched,
+  wf_cfg c = true -> c_recheck c = true -> c_nextctx c = true ->
+  exists t, scan_vals (snd (run c sched (init c))) ++ t = expected (c_inp c).
+Proof. exact scans_are_prefix. Qed.
+Print Assumptions C02_scans_are_prefix.
 
 (* specification side: the objects of the first m file blocks, all but the last of them free of
    errors, are a prefix of the file's elements (for every well-formed input and every m) *)
-Theorem C02_blocks_prefix_partial : forall inp m, wf_input inp = true ->
+Theorem C02_blocks_prefix : forall inp m, wf_input inp = true ->
   (forall k, k + 1 < m -> err_of (rd inp k) = 0%Z) ->
   exists t, concat (map (fun k => objs_of (rd inp k)) (seq 0 m)) ++ t = expected inp.
 Proof. exact pre_prefix. Qed.
-Print Assumptions C02_blocks_prefix_partial.
+Print Assumptions C02_blocks_prefix.
 
 (* FALSE for the original serializer (no re-check of the context after a receive): when another
    goroutine cancels while Scan is blocked, a worker may drop block 1 in its select and the
